@@ -19,3 +19,69 @@ pub fn select(b: &[bool], r: usize, bit: bool) -> Option<usize> {
     }
     None
 }
+
+/// The iterator protocol beyond a plain pass: an implementation is free to override `nth`, `count`,
+/// `last`, `size_hint` (and thereby `skip`, `step_by`), so they are observations of their own.
+/// `mk` creates a fresh iterator whose items must be `exp`. Returns a description of the first
+/// disagreement with the slice iterator over `exp`.
+pub fn iter_protocol<T: PartialEq + std::fmt::Debug + Clone, I: Iterator<Item = T>>(mk: impl Fn() -> I, exp: &[T]) -> Option<String> {
+    let n = exp.len();
+    // plain pass with size hints, then polling after the end
+    let mut it = mk();
+    for (i, e) in exp.iter().enumerate() {
+        let (lo, hi) = it.size_hint();
+        if lo > n - i || hi.is_some_and(|h| h < n - i) {
+            return Some(format!("size_hint() = ({lo}, {hi:?}) with {} items left", n - i));
+        }
+        match it.next() {
+            Some(x) if &x == e => {}
+            other => return Some(format!("item {i} = {other:?} expected {e:?}")),
+        }
+    }
+    for _ in 0..2 {
+        if let Some(x) = it.next() {
+            return Some(format!("next() after the last item = Some({x:?})"));
+        }
+    }
+    let mut ks: Vec<usize> = vec![0, 1, 2, 63, 64, n.saturating_sub(1), n, n + 1, n + 63, n + 64, usize::MAX];
+    ks.sort();
+    ks.dedup();
+    for &k in &ks {
+        let mut it = mk();
+        let g = it.nth(k);
+        if g.as_ref() != exp.get(k) {
+            return Some(format!("nth({k}) = {g:?} expected {:?} ({n} items)", exp.get(k)));
+        }
+        let g2 = it.next();
+        let e2 = k.checked_add(1).and_then(|j| exp.get(j));
+        if g2.as_ref() != e2 {
+            return Some(format!("next() after nth({k}) = {g2:?} expected {e2:?} ({n} items)"));
+        }
+        // two jumps in a row (a cursor advanced past the end must stay at the end)
+        let mut it = mk();
+        let _ = it.nth(k);
+        let g3 = it.nth(k);
+        let e3 = k.checked_mul(2).and_then(|j| j.checked_add(1)).and_then(|j| exp.get(j));
+        if g3.as_ref() != e3 {
+            return Some(format!("nth({k}) twice = {g3:?} expected {e3:?} ({n} items)"));
+        }
+        let c = mk().skip(k).count();
+        if c != n.saturating_sub(k) {
+            return Some(format!("skip({k}).count() = {c} expected {}", n.saturating_sub(k)));
+        }
+    }
+    for s in [1usize, 2, 3, 7, 64, n.max(1), n + 1] {
+        let g: Vec<T> = mk().step_by(s).take(n + 2).collect();
+        let e: Vec<T> = exp.iter().step_by(s).cloned().collect();
+        if g != e {
+            return Some(format!("step_by({s}) yields {} items {:?}.. expected {} items {:?}..", g.len(), &g[..g.len().min(4)], e.len(), &e[..e.len().min(4)]));
+        }
+    }
+    if mk().count() != n {
+        return Some(format!("count() = {} expected {n}", mk().count()));
+    }
+    if mk().last().as_ref() != exp.last() {
+        return Some(format!("last() = {:?} expected {:?}", mk().last(), exp.last()));
+    }
+    None
+}
